@@ -77,6 +77,14 @@ def getInt (kvs : Fields) (k : String) : Except Err Int :=
   | some (.int i) => .ok i
   | some _ => .error .syntax
 
+/-- `uint8` field (`MetricMetadataType`): a number outside 0..255 is a decoding error. -/
+def getU8 (kvs : Fields) (k : String) : Except Err Nat :=
+  match lookup kvs k with
+  | none => .ok 0
+  | some .null => .ok 0
+  | some (.int i) => if 0 ≤ i ∧ i < 256 then .ok i.toNat else .error .syntax
+  | some _ => .error .syntax
+
 /-- `bool` field. -/
 def getBool (kvs : Fields) (k : String) : Except Err Bool :=
   match lookup kvs k with
